@@ -970,6 +970,15 @@ class Sym:
                     nm_ = self.name(sl[0])
                     self.sym_terms.setdefault(nm_, sl[0])
                     return Poly.sym(nm_)
+            if bkey not in self._busy_vars and self.path_blocks is None and ("mau", t[1]) not in self._busy_vars:
+                # `match opt { Some(i) => i, None => D }` is `opt.unwrap_or(D)` (same symbol as the combinator form)
+                mu_ = self.match_as_unwrap_or(t[1])
+                if mu_ is not None and (vpos is None or all(vpos[0] != d_[0] for d_ in self.an.terms.defs.whole[t[1]])):
+                    self._busy_vars.add(("mau", t[1]))
+                    try:
+                        return self.poly(mu_)
+                    finally:
+                        self._busy_vars.discard(("mau", t[1]))
             if bkey not in self._busy_vars and ("pfl", t[1]) not in self._busy_vars:
                 pf = self.pure_fold_loops().get(t[1])
                 if pf is not None and (vpos is None or vpos[0] not in pf[2]):
@@ -1367,6 +1376,11 @@ class Sym:
                 n_ = chunk_len(self, nx[2][0])
                 if n_ is not None:
                     return Poly.const(n_)
+            # .. also when the element is singled out by `find(P)` / `last()` / `nth(k)` instead of `next()`
+            if nx[0] == "call" and short(nx[1]) in ("Iterator::find", "Iterator::last", "Iterator::nth", "Iterator::max_by_key", "Iterator::min_by_key") and len(nx[2]) >= 1:
+                n_ = chunk_len(self, nx[2][0])
+                if n_ is not None:
+                    return Poly.const(n_)
         if t[0] == "field" and t[2] == 1:
             # .. and the same through `enumerate()`: the item is (index, chunk)
             e_ = unmut(t[1])
@@ -1542,6 +1556,8 @@ class Sym:
             return "(%s as %s)" % (self.name(t[1]), t[2])
         if k == "index":
             return "%s[%s]" % (self.name(t[1]), self.arg_name(t[2]))
+        if k == "cindex" and len(t) >= 4 and not t[3] and isinstance(t[2], int):
+            return "%s[%d]" % (self.name(t[1]), t[2])          # element of a slice pattern `[a, b]`: the same as s[0], s[1]
         if k == "var":
             if self.path_blocks is None and ("mau", t[1]) not in self._busy_vars:
                 mu_ = self.match_as_unwrap_or(t[1])
